@@ -122,6 +122,10 @@ pub fn cases(tier: Tier) -> Vec<Case> {
         }
         rec(d0, d0, &mut vec![], depth, &alpha, &mut out, 0);
     }
+    // wide layers: an accepted architecture must distill whatever its widths (64 and 70 neurons, three of them active)
+    for (d0, w) in [(2usize, 64usize), (1, 70)] {
+        out.push(Case { d0, calls: vec![Call::Linear(w, d0, 1), Call::PRelu(0), Call::PRelu(w / 2), Call::PTanh(w - 1), Call::Linear(1, w, 2)] });
+    }
     out
 }
 
@@ -222,6 +226,33 @@ pub fn run_case(c: &Case) -> CaseOut {
         };
         if a.operators.len() != k || b.operators.len() != n - k || a.input_shape.max_dim() != c.d0 {
             out.violate(Violation::new(format!("extract_range({k}) returned {} + {} operators of {n}", a.operators.len(), b.operators.len()), rec()).tag("kind", "extract_range"));
+            continue;
+        }
+        // the parts record, for every operator, the same shape as the whole does; and a range taken from a part is
+        // the same architecture as that range taken from the whole (nested extraction)
+        let shapes = |x: &affinitree::distill::arch::Architecture| -> Vec<String> { x.operators.iter().map(|(_, s)| format!("{:?}", s)).collect() };
+        let whole = shapes(&arch);
+        if shapes(&a) != whole[..k].to_vec() || shapes(&b) != whole[k..].to_vec() || format!("{:?}", a.current_shape) != whole[k - 1] || format!("{:?}", b.current_shape) != whole[n - 1] {
+            out.violate(Violation::new(format!("extract_range at split {k}: the parts record other shapes than the whole architecture"), rec()).tag("kind", "extract_range").tag("what", "recorded_shapes"));
+            continue;
+        }
+        let mut nested_bad = None;
+        for j in 1..k {
+            let direct = (arch.extract_range(0, j), arch.extract_range(j, k));
+            let nested = (a.extract_range(0, j), a.extract_range(j, k));
+            if format!("{:?}", direct) != format!("{:?}", nested) {
+                nested_bad = Some(format!("ranges 0..{j} / {j}..{k} of the part 0..{k}"));
+            }
+        }
+        for j in 1..(n - k) {
+            let direct = (arch.extract_range(k, k + j), arch.extract_range(k + j, n));
+            let nested = (b.extract_range(0, j), b.extract_range(j, n - k));
+            if format!("{:?}", direct) != format!("{:?}", nested) {
+                nested_bad = Some(format!("ranges 0..{j} / {j}..{} of the part {k}..{n}", n - k));
+            }
+        }
+        if let Some(w) = nested_bad {
+            out.violate(Violation::new(format!("nested extract_range differs from the direct one: {w}"), rec()).tag("kind", "extract_range").tag("what", "nested"));
             continue;
         }
         let din = b.input_shape.max_dim();
